@@ -25,6 +25,8 @@ THEOREMS = [
     "C07_running_link_unloadable",
     "C07_foreign_connection_unloadable",
     "C07_composite_cache_forgotten",
+    "C07_foreign_connection_dropped",
+    "C07_loaded_macro_not_resavable",
 ]
 RULE = (
     "seeded random graphs built from REAL objects (term function nodes, transformers, for-loops, nested macros "
@@ -76,8 +78,9 @@ def _exec_repr(ex):
     return "i:" + repr(ex)
 
 
-def _conn_list(ch):
-    return [[c.owner.label, c.label] for c in ch.connections]
+def _conn_list(ch, comp):
+    # third entry: is the partner's owner really a child of this composite (or only a label)?
+    return [[c.owner.label, c.label, c.owner.parent is comp] for c in ch.connections]
 
 
 def snap(node):
@@ -125,16 +128,16 @@ def snap(node):
             d["children"].append(snap(ch))
             for k, c in ch.inputs.items():
                 if c.connections:
-                    d["di"].append([[ch.label, k], _conn_list(c)])
+                    d["di"].append([[ch.label, k], _conn_list(c, node)])
             for k, c in ch.outputs.items():
                 if c.connections:
-                    d["do"].append([[ch.label, k], _conn_list(c)])
+                    d["do"].append([[ch.label, k], _conn_list(c, node)])
             for k, c in ch.signals.input.items():
                 if c.connections:
-                    d["si"].append([[ch.label, k], _conn_list(c)])
+                    d["si"].append([[ch.label, k], _conn_list(c, node)])
             for k, c in ch.signals.output.items():
                 if c.connections:
-                    d["so"].append([[ch.label, k], _conn_list(c)])
+                    d["so"].append([[ch.label, k], _conn_list(c, node)])
         if kind in ("m", "f"):
             for k, c in node.inputs.items():
                 r = c.value_receiver
@@ -152,8 +155,9 @@ def snap(node):
 
 
 class Intern:
-    def __init__(self):
+    def __init__(self, foreign_by_identity=False):
         self.tabs = {}
+        self.foreign_by_identity = foreign_by_identity
 
     def __call__(self, space, key):
         t = self.tabs.setdefault(space, {})
@@ -185,7 +189,10 @@ def _path(I, p):
 
 def _addr(I, side, a):
     space = {"di": "din", "do": "dout", "si": "sin", "so": "sout"}[side]
-    return (I("node", a[0]), I(space, a[1]))
+    lab = a[0]
+    if len(a) > 2 and not a[2] and I.foreign_by_identity:
+        lab = "foreign:" + lab  # the repaired library tells siblings from strangers by identity, not by label
+    return (I("node", lab), I(space, a[1]))
 
 
 _CONJ = {"di": "do", "do": "di", "si": "so", "so": "si"}
@@ -266,7 +273,8 @@ _VARIANT = None
 
 
 def variant():
-    """(revIter, firing, pushLinks, keepCache) of the library under test, probed on tiny real graphs"""
+    """(revIter, firing, pushLinks, keepCache, skipForeign, rebindOwners) of the library under test, probed on tiny
+    real graphs"""
     global _VARIANT
     if _VARIANT is not None:
         return _VARIANT
@@ -302,7 +310,25 @@ def variant():
     push = m2.k.inputs.a.value == 1
     wf.run()
     keep = pickle.loads(pickle.dumps(wf))._cached_inputs is not None
-    _VARIANT = (int(rev), int(fir), int(push), int(keep))
+    ext = nodes.F4(label="stranger")
+    wf.a.inputs.c.connect(ext.outputs.o)
+    try:
+        pickle.loads(pickle.dumps(wf))
+        skip = True
+    except Exception:  # noqa: BLE001
+        skip = False
+    fn = os.path.join(os.getcwd(), "pv_probe")
+    m.save(backend="pickle", filename=fn)
+    N.CUR.append({"children": [{"label": "k", "kind": "F", "i": 1}], "data": [["k", "a", ["arg", "x"]]],
+                  "returns": [["k", "o"]]})
+    try:
+        m3 = N.M1(label="pm")
+    finally:
+        N.CUR.pop()
+    m3.load(backend="pickle", filename=fn)
+    rebind = m3.inputs.x.owner is m3
+    m3.delete_storage(backend="pickle", filename=fn)
+    _VARIANT = (int(rev), int(fir), int(push), int(keep), int(skip), int(rebind))
     return _VARIANT
 
 
@@ -536,11 +562,11 @@ def run_impl(case):
         stats["rerun"] = 1
 
     # the two renderings (one interner per case)
-    I = Intern()
+    I = Intern(foreign_by_identity=bool(res["variant"][4]))
     rows = []
     rid = model_rows(I, before, rows)
     rows.append(f"build {rid}")
-    v = "%d %d %d %d" % res["variant"]
+    v = "%d %d %d %d %d %d" % res["variant"]
     obs = ["built"]
     if before["has_parent"]:
         # the driver starts from the parent's path: describe the child as a root whose detached path is the parent's
@@ -607,8 +633,11 @@ def _walk(s, path=""):
         yield from _walk(c, p)
 
 
-def _cause(before):
+def _cause(before, rnd=0, backend="pickle"):
     """structural facts about the graph that was pickled, read off the BEFORE snapshot"""
+    if rnd >= 1 and backend == "file" and before["kind"] in ("m", "f") and before["ilinks"]:
+        # second generation of a node that came out of load(): its channels belong to the unpickled twin
+        return "twin-owner"
     for p, s in _walk(before):
         labels = {c["label"] for c in s["children"]}
         for k, cl, cx, inside in s["ilinks"]:
@@ -616,9 +645,9 @@ def _cause(before):
                 return "dangling-link"
     for p, s in _walk(before):
         labels = {c["label"] for c in s["children"]}
-        for side in ("di", "si"):
+        for side in ("di", "si", "do", "so"):
             for key, lst in s[side]:
-                if any(x[0] not in labels for x in lst):
+                if any(x[0] not in labels or not x[2] for x in lst):
                     return "foreign-connection"
     for p, s in _walk(before):
         kids = {c["label"]: c for c in s["children"]}
@@ -704,11 +733,14 @@ def oracle(case, impl):
         e = impl["error"]
         if e["cls"].startswith("dump:") or e["msg"].startswith("dump:"):
             return [_fail("dump-error", f"the graph could not be pickled: {e}")]
-        return [_fail("load-error", f"round {e['round']}: {e['cls']}: {e['msg']}", error=e["cls"], cause=_cause(before))]
+        return [_fail("load-error", f"round {e['round']}: {e['cls']}: {e['msg']}", error=e["cls"],
+                      cause=_cause(before, e["round"], case["backend"]))]
     for r, after in enumerate(impl["rounds"]):
         f = _compare(before, after, child_alone)
         if f is not None:
             f["detail"] = f"round {r + 1} ({case['backend']}): " + f["detail"]
+            if f["clause"] in ("data-connections", "signal-connections") and _cause(before) == "foreign-connection":
+                f["signature"]["cause"] = "foreign-connection"
             return [f]
     rr = impl.get("rerun")
     if rr:
@@ -1053,6 +1085,14 @@ def corpus():
         "children": [{"label": "s", "kind": "snap", "const": {}}, _leafF("b", 2)],
         "data": [["s", "a", ["arg", "x"]], ["b", "a", ["child", "s", "o"]]], "returns": [["b", "o"]]}}
     yield {"root": m4, "state": "midrun", "backend": "pickle", "rounds": 1, "target": [], "fail": [], "mode": "corpus"}
+    # KF-C07-6 witness: a parentless node feeds a workflow child
+    yield {"root": {"kind": "wf", "label": "w", "spec": {"children": [_leafF("n0", 6)], "data": []}},
+           "state": "fresh", "mode": "foreign", "backend": "pickle", "rounds": 1, "target": [], "fail": [],
+           "foreign": {"label": "zz", "dst": "n0", "dst_in": "c"}}
+    # KF-C07-7 witness: a macro saved, loaded, saved again, loaded again
+    yield {"root": {"kind": "M1", "label": "m", "const": {"x": 1}, "spec": {
+        "children": [_leafF("a", 1)], "data": [["a", "a", ["arg", "x"]]], "returns": [["a", "o"]]}},
+        "state": "fresh", "mode": "corpus", "backend": "file", "rounds": 2, "target": [], "fail": []}
     # a child on its own, nested, all three back ends
     for be in ("pickle", "cloudpickle", "file"):
         yield {"root": m1, "state": "run", "backend": be, "rounds": 2, "target": ["m", "c"], "fail": [], "mode": "corpus"}
